@@ -11,7 +11,7 @@ TEXT = props.TEXT if hasattr(props, 'TEXT') else {}
 hooks_commits = []
 hp = os.path.join(V, 'hooks_commits.txt')
 if os.path.exists(hp):
-    hooks_commits = [l.strip() for l in open(hp) if l.strip()]
+    hooks_commits = [l.split()[0] for l in open(hp) if l.strip()]
 
 checks = []
 for p in allp:
